@@ -2,7 +2,7 @@
 
 The keyword arguments are a dict from names to values of an opaque sort KwVal (a Python object of any type). Two of them are read by draw():
 'spacing' (handed to spring_layout) and 'aliases' (a dict[str, str], see draw's docstring). A KwVal that IS a dict[str, str] is viewed as one by the
-abstraction any_strdict; storing a dict[str, str] as a KwVal (kwargs['labels'] = labels) and viewing it again gives the same dict (schema KwDictRoundTrip).
+abstraction any_strdict; storing a dict[str, str] as a KwVal (kwargs['labels'] = labels) and viewing it again gives the same dict (schema KwDictRoundTrip, used as a ground instance for the label map).
 
 Ghost state: what the back end receives is observable only at its call. The assumed contract of draw_networkx RECORDS the call (graph, keyword dict, number
 of calls) in the ghost log `ghost_draw`; draw()'s postcondition is a statement about that log. Likewise AbstractGraph.draw records into `ghost_vis` for visualize()."""
@@ -39,11 +39,11 @@ vals.COERCE_HOOKS.append(_kw_casts)
 
 
 @REG.specfun("KwDictRoundTrip", schema=True)
-def _kw_round_trip(eng, st):
-    """Schema (trusted): a dict[str, str] stored as a keyword value and read back is the same dict (object identity)."""
-    d, v = z3.Const("rt!d", _dom_s), z3.Const("rt!v", _val_s)
-    app = _f_sd_any(d, v)
-    return vbool(z3.ForAll([d, v], z3.And(_f_sd_dom(app) == d, _f_sd_val(app) == v), patterns=[app]))
+def _kw_round_trip(eng, st, d):
+    """Schema (trusted), one ground instance per use: the dict[str, str] d stored as a keyword value and read back is the same dict (object identity).
+    (Ground instances instead of one quantified axiom keep the hypotheses quantifier-free, so that a violated obligation is refuted with a model.)"""
+    app = _f_sd_any(d.x[0], d.x[1])
+    return vbool(z3.And(_f_sd_dom(app) == d.x[0], _f_sd_val(app) == d.x[1]))
 
 
 _f_mpl = z3.Const("matplotlib_available", z3.BoolSort())
@@ -67,7 +67,7 @@ REG.add(Contract("draw_networkx", status="assumed", params=dict(G="DiGraph", kwd
 NG = "NetworkxGraph"
 REG.macro("kw_aliases", ["kw"], "any_strdict(kw['aliases'])")
 REG.add(Contract(f"{NG}.draw", module=M_NX, kind="method", view="string", params=dict(self=NG, kwargs=KWD, ghost_draw="DrawLog"), returns="None",
-                 modifies=["kwargs", "ghost_draw"], opts=("star_kwargs:kwargs",), use_at_start=["KwDictRoundTrip()"],
+                 modifies=["kwargs", "ghost_draw"], opts=("star_kwargs:kwargs",), use_at_end=["KwDictRoundTrip(labels)"],
                  raises=[("Exception", "not matplotlib_available()"),
                          # C17: an alias given for a module that does not exist is rejected (KeyError naming it: _assert_aliased_modules_exist)
                          ("KeyError", "matplotlib_available() and ('aliases' in kwargs) and exists(Str, lambda a: (a in kw_aliases(kwargs)) and not dg_node(self._graph, a))")],
